@@ -345,6 +345,10 @@ def r_plumb(ctx):
     namesake_plumbing(ctx, ctx.prog, r"^(<)?dnp3::outstation::", 60, "plumbing")
 
 
+def r9(ctx):
+    """'...and no reconnect intervened': see engine.session_start_resets."""
+    session_start_resets(ctx)
+
 RULES = [
     ("C04.R1", "T2", "every SelectState field is tested on the way to match_operate's Ok", r1),
     ("C04.R2", "T2", "actuation in handle_operate only under select is Some and match_operate is Ok", r2),
@@ -354,4 +358,5 @@ RULES = [
     ("C04.R6", "T5/T8", "fragment id counts every assembled fragment", r6),
     ("C04.R7", "T7", "the status that arms OPERATE folds the status answered for every object and header", r7),
     ("C04.R8", "T8-namesake", "the outstation's configuration and session state are plumbed field-to-namesake (select_timeout, confirm_timeout, ...)", r_plumb),
+    ("C04.R9", "T2", "per-session state is reset before a session's first await (a pre-empted session is dropped without clean-up)", r9),
 ]
